@@ -1551,7 +1551,7 @@ func c05Wrappers(c *Ctx, R string, refusalOnly bool) {
 						continue
 					}
 					seen[call.(ssa.Instruction)] = true
-					r := ErrFlow(call, ErrFlowOpts{Tolerated: tol})
+					r := c05ErrFlow(call, ErrFlowOpts{Tolerated: tol})
 					if !r.OK {
 						okR, detail = false, r.Detail
 					} else if detail == "" {
@@ -2166,7 +2166,7 @@ func c05R4(c *Ctx) {
 					tol = []string{"~/content/file.errSkipUnnamed"}
 				}
 			}
-			r := ErrFlow(call, ErrFlowOpts{Tolerated: tol})
+			r := c05ErrFlow(call, ErrFlowOpts{Tolerated: tol})
 			pos := call.Pos()
 			if !r.OK && r.At.IsValid() {
 				pos = r.At
